@@ -122,7 +122,7 @@ def gen_cases(prop, tier, seed, path):
     return (int(m.group(1)) if m else 0), out, dt
 
 
-def run_driver(casefile, workdir, shards=16):
+def run_driver(casefile, workdir, prop="full", shards=16):
     """pipes the case file through the compiled Lean driver, sharded; returns list of verdict lines"""
     lines = open(casefile, errors="replace").read().split("\n")
     if lines and lines[-1] == "":
@@ -130,14 +130,14 @@ def run_driver(casefile, workdir, shards=16):
     n = len(lines)
     if n == 0:
         return lines, []
-    shards = max(1, min(shards, (n + 199) // 200))
-    size = (n + shards - 1) // shards
-    chunks = [lines[i * size:(i + 1) * size] for i in range(shards)]
+    shards = max(1, min(shards, (n + 19) // 20))
+    # round-robin so that the expensive large versions are spread over all shards
+    chunks = [lines[i::shards] for i in range(shards)]
 
     def one(chunk):
         if not chunk:
             return []
-        p = subprocess.run([FQMODEL], input="\n".join(chunk) + "\n", stdout=subprocess.PIPE,
+        p = subprocess.run([FQMODEL, prop], input="\n".join(chunk) + "\n", stdout=subprocess.PIPE,
                            stderr=subprocess.PIPE, text=True, errors="replace", timeout=7200)
         out = p.stdout.split("\n")
         if out and out[-1] == "":
@@ -149,7 +149,10 @@ def run_driver(casefile, workdir, shards=16):
 
     with ThreadPoolExecutor(max_workers=shards) as ex:
         outs = list(ex.map(one, chunks))
-    verdicts = [v for o in outs for v in o]
+    verdicts = [None] * n
+    for i, o in enumerate(outs):
+        for j, v in enumerate(o):
+            verdicts[i + j * shards] = v
     return lines, verdicts
 
 
@@ -227,7 +230,7 @@ def run_cases(prop, cfg, tier, seed, workdir, tag):
     if n is None:
         return {"error": "case generation failed: " + out}
     t = time.time()
-    lines, verdicts = run_driver(casefile, workdir)
+    lines, verdicts = run_driver(casefile, workdir, prop)
     dt_drv = time.time() - t
     fails, diffs = [], []
     keys = set()
@@ -476,7 +479,7 @@ def replay(path):
         return 1
     rc, line, _ = sh([FQV, "rerun"] + case.split(" "))
     line = line.strip().split("\n")[-1]
-    p = subprocess.run([FQMODEL], input=line + "\n", stdout=subprocess.PIPE, text=True)
+    p = subprocess.run([FQMODEL, prop or "full"], input=line + "\n", stdout=subprocess.PIPE, text=True)
     verdict = p.stdout.strip()
     print("case:   ", short(line, 300))
     print("verdict:", verdict)
